@@ -99,6 +99,21 @@ CHECKS = {
              'nondelegable_qualifykey(parent,to) component for component; encrypt/sign/verify through precomputed values interchangeable with the direct forms.',
         note='Trusted: library group equality as instrument. quick tier enumerates every second ordered pair, thorough all 4096.',
         ref='DESIGN.md section 3 C14'),
+    'C15': dict(
+        technique='round-trip monitor through the Go-binding protocol with exact-size buffers (ASan), byte layout parsed by the reference model, single-element corruption injection',
+        text='All ten object kinds x both encodings x slot counts 0..20 x free-slot subsets x signature support: marshal into exactly get_marshalled_length bytes (twice over different '
+             'fills: every byte written, none beyond), *_marshalled_length agrees, set_length recovers the slot count, validating and non-validating unmarshal reproduce an equal object '
+             '(compressed params: recomputed pairing), re-marshal is byte-identical; layout parsed independently (flag byte, order, canonical coordinates, big-endian idx, GT); each '
+             'embedded element replaced by an invalid one (outside subgroup, off curve, wrong form, garbage) must be rejected.',
+        note='Trusted: library group equality, oracle/bls.py for layout. The greater flag of compressed elements is masked in the layout comparison (covered by the decode round trip).',
+        ref='DESIGN.md section 3 C15'),
+    'C16': dict(
+        technique='the caller-supplied hash callback as monitor: records the exact bytes handed to it by encrypt and decrypt; reference-model check of identity point, secret key and pairing bytes',
+        text='Honest runs must hand the hash function identical 720-byte inputs (compressed identity | compressed ciphertext | pairing value) and pass length/destination through '
+             '(lengths 0..1000); identity = cofactor-cleared try-and-increment point and sk = [s]Q_id by reference arithmetic incl. unmarshalled s >= r; pairing bytes equal the '
+             'definitional pairing on a sample; another identity (key or object), another master key or a modified ciphertext must change the bytes (degenerate cases excluded by the model).',
+        note='Trusted: oracle/bls.py; library pairing as instrument for the always-on comparison.',
+        ref='DESIGN.md section 3 C16'),
 }
 
 NOT_YET = 'check not built yet in this round (planned, see DESIGN.md section 3)'
